@@ -15,7 +15,7 @@ def init : State := none
 
 def parseProg (s : String) : List Kind :=
   s.toList.filterMap fun c =>
-    if c == 'R' || c == 'r' then some Kind.read
+    if c == 'R' || c == 'r' || c == 'N' then some Kind.read
     else if c == 'W' || c == 'w' || c == 'H' then some Kind.write
     else none
 
@@ -68,6 +68,11 @@ def step (st : State) (args : List String) : State × String :=
           match x.base.ths[i]? with
           | some .notifying => (st, s!"MISMATCH {ev} {i}: model expects the pending notify_all first")
           | _ =>
+          -- a parked thread that runs a critical section without having been notified woke up spuriously (or its timed
+          -- wait timed out): the base relation `Step` allows it — it re-evaluates its predicate like any woken waiter
+          let x := match x.base.ths[i]? with
+            | some (.waiting k id false) => ({ x with base := { x.base with ths := x.base.ths.set i (.waiting k id true) } } : XState)
+            | _ => x
           match xstep? x i with
           | none => (st, s!"MISMATCH {ev} {i}: no model step for thread in state {((x.base.ths[i]?).map pcStr).getD "?"} | {status x}")
           | some y =>
